@@ -390,7 +390,29 @@ func c05Case(ctx context.Context, run *common.Run, obs *c05obs, idx int, orphan 
 	env.mu.Lock()
 	env.log("trigger", Hash{}, "startup")
 	env.mu.Unlock()
-	mgr.VerifMarkStartupDelayComplete(ctx)
+	if idx%3 == 1 {
+		// several triggers at the same instant (the startup-delay thread and MonitorHeaders are
+		// different goroutines in the library): still one round at a time
+		var tw sync.WaitGroup
+		gate := make(chan struct{})
+		for g := 0; g < 4; g++ {
+			tw.Add(1)
+			go func(g int) {
+				defer tw.Done()
+				<-gate
+				if g == 0 {
+					mgr.VerifMarkStartupDelayComplete(ctx)
+				} else {
+					mgr.TriggerBlockSynchronize(ctx)
+				}
+			}(g)
+		}
+		close(gate)
+		tw.Wait()
+		wit["concurrent_triggers_at_start"] = 4
+	} else {
+		mgr.VerifMarkStartupDelayComplete(ctx)
+	}
 
 	// optionally more headers arrive during the round (as MonitorHeaders would: submit + trigger)
 	extra := 0
